@@ -30,6 +30,7 @@ TECHNIQUE += '; the PARSER source template hands every content parameter of Gram
 LEVEL_TEXT += " Added clause: the generated parser class parses with the model's keywords."
 TECHNIQUE += '; asjson of ten scalar kinds is dumpable'
 TECHNIQUE += '; Grammar.__from_json__ interpreted on decoded members: same rule objects handed on, none changed (C14.R11)'
+TECHNIQUE += '; Model.link(grammar) re-binds node and children to the grammar given (R12, interpreted on linked / unlinked stand-ins)'
 LEVEL_NOTE = 'Trusted: dataclass semantics (init=False fields are not constructor parameters); BaseNode.__repr__ omits None values.'
 EXPLANATION = ('Static analysis of /repo sources, TatSu not imported. Field tables are computed from the class table and the '
                'dataclass field declarations through the static MRO.')
